@@ -293,6 +293,16 @@ func ValueSweeps() []SweepCase {
 				out = append(out, SweepCase{cfg, al, ops, "meta-type", fmt.Sprintf("%02X/%d", typ, n)})
 			}
 		}
+		// two meta events of neighbouring types directly after one another (and a
+		// third one of the first type), between channel messages of one status
+		for typ := 0; typ < 0x80; typ++ {
+			if typ == 0x2F || typ+1 == 0x2F {
+				continue
+			}
+			al := []Msg{{"note", []byte{0x93, 0x40, 0x41}}, {"metaA", smf.MetaUndefined(byte(typ), []byte{1})}, {"metaB", smf.MetaUndefined(byte((typ+1)%0x80), []byte{2, 3})}}
+			ops := []Op{{Kind: OpAdd, D: 0, M1: 0}, {Kind: OpAdd, D: 1, M1: 1}, {Kind: OpAdd, D: 0, M1: 2}, {Kind: OpAdd, D: 2, M1: 1}, {Kind: OpAdd, D: 0, M1: 0}, {Kind: OpSMFAdd}}
+			out = append(out, SweepCase{cfg, al, ops, "meta-type-pairs", fmt.Sprintf("%02X", typ)})
+		}
 		// type bytes with the high bit set: outside the format, but the API builds
 		// them and a written value must still read back as it was (C01 only; the
 		// strict parser of C03 does not define them)
